@@ -30,56 +30,70 @@ open Xsel Arena
     arena without repetition (`Val.Ok`).  `ca = true` when both context node-sets are listed in
     ascending order (`hasc`), as is the case for the single start node of `Model.run`.
 
-    Side conditions on the expression (decidable, syntactic):
+    Side condition on the expression (decidable, syntactic):
     * `sumSafe ca e`: every `sum(arg)` has an argument for which `ascending` holds (IEEE
       addition is not associative, so a sum over a differently listed node-set may differ),
       and every `lang(s)` is called on a context for which `ascending` holds (the first context
-      node with an `xml:lang` in scope decides; in a predicate the context is one node);
-    * `prefixesBound env e`: every prefix used in a node test is bound — see
-      `unbound_prefix_deviation`. -/
+      node with an `xml:lang` in scope decides; in a predicate the context is one node).
+
+    Nothing is assumed about namespace prefixes: a node test whose prefix is not bound is an
+    error of the expression in both evaluators, whatever the context node-set — see
+    `unbound_prefix_fails_in_both`. -/
 theorem exec_refines_spec (a : Arena) (h : wfb a = true)
     (hsv : ∀ i, i < a.size → Model.strval a i = Spec.strval a i)
     (env : Env) (henv : EnvOk a env) (e : Expr) (ca : Bool)
-    (hs : sumSafe ca e = true) (hb : prefixesBound env e = true)
+    (hs : sumSafe ca e = true)
     (c c' : Ctx) (hc : Ctx.Equiv c c') (hok : Val.Ok a c.result)
     (hasc : ca = true → Val.Asc c.result ∧ Val.Asc c'.result)
     (ha : c.a = a) (he : c.env = env) :
     Res.Equiv (eval Model.sem e c) (eval Spec.semKF e c') :=
-  Xsel.exec_refines_spec a h hsv env henv e ca hs hb c c' hc hok hasc ha he
+  Xsel.exec_refines_spec a h hsv env henv e ca hs c c' hc hok hasc ha he
 
 /-- `exec.Exec` from a start node -/
 theorem run_refines_spec (a : Arena) (h : wfb a = true)
     (hsv : ∀ i, i < a.size → Model.strval a i = Spec.strval a i)
     (env : Env) (henv : EnvOk a env) (start : Nat) (hstart : start < a.size) (e : Expr)
-    (hs : sumSafe true e = true) (hb : prefixesBound env e = true) :
+    (hs : sumSafe true e = true) :
     Res.Equiv (Model.run a env start e) (Spec.runKF a env start e) :=
-  Xsel.run_refines_spec a h hsv env henv start hstart e hs hb
+  Xsel.run_refines_spec a h hsv env henv start hstart e hs
 
 /-- predicates are applied to the same lists and keep the same nodes: a predicate list applied
     to a list `l` of cells gives the same result (or fails) in both evaluators -/
 theorem preds_refine_spec (a : Arena) (h : wfb a = true)
     (hsv : ∀ i, i < a.size → Model.strval a i = Spec.strval a i)
     (env : Env) (henv : EnvOk a env) (ps : Exprs)
-    (hs : sumSafeL true ps = true) (hb : prefixesBoundL env ps = true)
+    (hs : sumSafeL true ps = true)
     (c c' : Ctx) (ha : c.a = a) (ha' : c'.a = a) (he : c.env = env) (he' : c'.env = env)
     (l : List Nat) (hl : ∀ x ∈ l, x < a.size) :
     ExRel Eq (applyPreds Model.sem ps c l) (applyPreds Spec.semKF ps c' l) :=
-  applyPreds_refines_spec a h hsv env henv ps hs hb c c' ha ha' he he' l hl
+  applyPreds_refines_spec a h hsv env henv ps hs c c' ha ha' he he' l hl
 
-/-- the hypothesis `prefixesBound` of `exec_refines_spec` cannot be dropped: a step whose node
-    test uses an unbound prefix, evaluated from an EMPTY context node-set, fails in the model
-    (the node test is resolved once, before looking at the nodes) and returns the empty
-    node-set in the specification (there is no context node for which to resolve it). -/
-theorem unbound_prefix_deviation (c : Ctx) (p x : Chars) (ax : Axis)
-    (hres : c.result = .nodes []) (hp : lookup p c.env.ns = none) :
+/-- a step whose node test has an unbound prefix is an error, in every evaluator, whatever its
+    base selects (also nothing) and whatever its predicates: the prefix is resolved before the
+    context nodes are looked at -/
+theorem unbound_prefix_fails (sem : Sem) (c : Ctx) (base : Expr) (ax : Axis) (t : NodeTest)
+    (preds : Exprs) {l : List Nat} (hbase : eval sem base c = .ok (.nodes l))
+    (hb : t.bound c.env = false) :
+    eval sem (.step base ax t preds) c = .error .unboundPrefix := by
+  rw [eval, hbase]
+  simp only [Val.nodes?, NodeTest.apply_unbound c.a c.env ax hb]
+  show (if _ then _ else _) = _
+  split <;> rfl
+
+/-- **unbound_prefix_fails_in_both** — an unbound prefix in a node test is an error of the
+    expression, independent of the context (XPath 1.0 §2.3: the prefix is expanded with the
+    namespace declarations of the expression context): the model (the node test is resolved
+    once, before looking at the nodes) and the specification (the node test is resolved before
+    the per-node loop) both fail with `unboundPrefix`, for ANY context node-set `l`, the empty
+    one included.  This is why `exec_refines_spec` needs no hypothesis on prefixes. -/
+theorem unbound_prefix_fails_in_both (c : Ctx) (p x : Chars) (ax : Axis) (l : List Nat)
+    (hres : c.result = .nodes l) (hp : lookup p c.env.ns = none) :
     eval Model.sem (.step .ctx ax (.qname p x) .nil) c = .error .unboundPrefix
-    ∧ eval Spec.semKF (.step .ctx ax (.qname p x) .nil) c = .ok (.nodes []) := by
-  constructor
-  · rw [eval, eval, hres]
-    simp [Val.nodes?, Model.sem, Exprs.isNil, NodeTest.apply, hp, bind, Except.bind]
-  · rw [eval, eval, hres]
-    simp [Val.nodes?, Spec.semKF, Spec.sem, concatMapE, bind, Except.bind, pure, Except.pure]
-    rfl
+    ∧ eval Spec.semKF (.step .ctx ax (.qname p x) .nil) c = .error .unboundPrefix := by
+  have hb : (NodeTest.qname p x).bound c.env = false := by simp [NodeTest.bound, hp]
+  have hctx : ∀ sem, eval sem .ctx c = .ok (.nodes l) := fun sem => by rw [eval, hres]
+  exact ⟨unbound_prefix_fails Model.sem c .ctx ax _ .nil (hctx _) hb,
+    unbound_prefix_fails Spec.semKF c .ctx ax _ .nil (hctx _) hb⟩
 
 /-! ## what a predicate sees -/
 
@@ -252,22 +266,21 @@ open Xsel Arena
     on a well-formed arena `Model.strval` IS the XPath string-value (`Strval.strval_refines'`). -/
 theorem exec_refines_spec' (a : Arena) (h : wfb a = true)
     (env : Env) (henv : EnvOk a env) (e : Expr) (ca : Bool)
-    (hs : sumSafe ca e = true) (hb : prefixesBound env e = true)
+    (hs : sumSafe ca e = true)
     (c c' : Ctx) (hc : Ctx.Equiv c c') (hok : Val.Ok a c.result)
     (hasc : ca = true → Val.Asc c.result ∧ Val.Asc c'.result)
     (ha : c.a = a) (he : c.env = env) :
     Res.Equiv (eval Model.sem e c) (eval Spec.semKF e c') :=
-  Chain.exec_refines_spec' a h env henv e ca hs hb c c' hc hok hasc ha he
+  Chain.exec_refines_spec' a h env henv e ca hs c c' hc hok hasc ha he
 
 /-- **run_refines_spec'** — `exec.Exec` from a start node of ANY arena that satisfies the Cursor
     contract returns what the specification (with the recorded `round` deviation) returns, up to
     the listing order of a node-set, or both fail.  The only hypotheses left are the Cursor
-    contract, `EnvOk`, and the two syntactic side conditions. -/
+    contract, `EnvOk`, and the syntactic side condition `sumSafe`. -/
 theorem run_refines_spec' (a : Arena) (h : wfb a = true) (env : Env) (henv : EnvOk a env)
-    (e : Expr) (start : Nat) (hs : start < a.size) (hsum : sumSafe true e = true)
-    (hb : prefixesBound env e = true) :
+    (e : Expr) (start : Nat) (hs : start < a.size) (hsum : sumSafe true e = true) :
     Res.Equiv (Model.run a env start e) (Spec.runKF a env start e) :=
-  Chain.run_refines_spec' a h env henv e start hs hsum hb
+  Chain.run_refines_spec' a h env henv e start hs hsum
 
 /-- `Spec.semKF` differs from `Spec.sem` only in `round`, which the function library reads only
     for the builtins `round` and `substring`: on an expression that calls neither
@@ -280,8 +293,8 @@ theorem semKF_eq_sem_of_noRound (e : Expr) (h : Chain.noRound e = true) (c : Ctx
     UNMODIFIED XPath 1.0 specification `Spec.sem` -/
 theorem run_refines_spec_noRound (a : Arena) (h : wfb a = true) (env : Env) (henv : EnvOk a env)
     (e : Expr) (start : Nat) (hs : start < a.size) (hsum : sumSafe true e = true)
-    (hb : prefixesBound env e = true) (hnr : Chain.noRound e = true) :
+    (hnr : Chain.noRound e = true) :
     Res.Equiv (Model.run a env start e) (Spec.run a env start e) :=
-  Chain.run_refines_spec_noRound a h env henv e start hs hsum hb hnr
+  Chain.run_refines_spec_noRound a h env henv e start hs hsum hnr
 
 end Xsel.C02
